@@ -64,11 +64,8 @@ TABLE = {
 }
 
 DETECTION = {
-    "C16-B": "missed: dask graph construction is outside the technique (C12 territory)",
     "C09-R3A": "not flagged by the C09 check (it covers the index computation, not the grouped kernel); the same change is caught by the C07 check "
                "(unstable argsort contract: ties reversed; long grouped replay): HDC_REPO=<worktree> ./check C07 exits 1 (seed C07-R3B is the same edit)",
-    "C12-R4B": "missed: the change lives in the dask graph key of ZonalStatistics.mean (two zonations sharing keys in one graph) - dask graph "
-               "construction / execution is outside the part of C12 that is claimed (same territory as C16-B)",
     "C08-R3A": "not caught: the check stops with exit 3 (scipy.special.gammaincc has no contract); the defect itself exists only in floating point "
                "(the CDF rounding to exactly 1.0) and is outside the exact-real regime",
     "C02-R2": "not flagged by the C02 check (the kernel zero-fills masked cells, so both placeholder runs agree); caught by the C03 check "
